@@ -1,6 +1,7 @@
 /-
   C03 (discrete families) — Bernoulli, DiscreteUniform, Geometric over ℝ: `0 ≤ pmf ≤ 1`, `pmf = 0`
-  off the support, `pmf k = cdf k - cdf (k-1)` on the support, and the pmf sums to 1.
+  off the support, `pmf k = cdf k - cdf (k-1)` on the support, and the pmf sums to 1
+  (Geometric: for every `u64` argument — `pmf` no longer wraps its exponent through `i32`).
   Bernoulli's pmf goes through `SF.ln_binomial 1 k`: relative to `Spec.LnBinomialOneSpec` (`_rel`).
   Integer arguments are Rust `u64` (Bernoulli, Geometric: hypotheses `0 ≤ k`) or `i64`
   (DiscreteUniform).
@@ -166,13 +167,22 @@ example : ∃ (_ : SF ℝ) (_ : LnBinomialOneSpec) (d : Bernoulli ℝ),
   ⟨sfWitness, lnBinomialOneSpec_witness, ⟨⟨1 / 3, 1⟩⟩, rfl, by norm_num, by norm_num⟩
 
 
-/-- closed form of the model pmf below the `i32` wrap -/
-theorem geometric_pmf_formula (d : Geometric ℝ) (k : Int) (hk1 : 1 ≤ k) (hk : k < 2 ^ 31) :
+/-! ### Geometric
+  `Geometric::pmf` now computes `(1-p).powf((k-1) as f64) * p` (it used to compute the exponent as
+  `k as i32 - 1`, which wrapped for `k ≥ 2^31`), so every statement below holds for ALL `u64`
+  arguments `k` — the former bound `k < 2^31` is gone, and the former counterexample at
+  `k = 2^32 + 1` is now a positive instance (`geometric_pmf_eq_cdf_sub_large_k`). -/
+
+/-- `usub k 1 = k - 1` for `1 ≤ k` (no unsigned underflow) -/
+theorem geometric_usub_pred (k : Int) (hk1 : 1 ≤ k) : usub k 1 = k - 1 := by
+  unfold usub; rw [if_neg (by omega)]
+
+/-- closed form of the model pmf for EVERY `k ≥ 1` (no `i32` wrap any more) -/
+theorem geometric_pmf_formula (d : Geometric ℝ) (k : Int) (hk1 : 1 ≤ k) :
     Geometric.pmf d k = (1 - d.f_p) ^ (k - 1) * d.f_p := by
   unfold Geometric.pmf
-  rw [wrapI32_of_small k (by omega) hk]
   model_norm
-  rw [if_neg (by omega)]
+  rw [if_neg (by omega), geometric_usub_pred k hk1, Real.rpow_intCast]
 
 /-- closed form of the model cdf (any `k ≠ 0`), for `p < 1` -/
 theorem geometric_cdf_formula (d : Geometric ℝ) (hp1 : d.f_p < 1) (k : Int) :
@@ -187,13 +197,13 @@ theorem geometric_cdf_formula (d : Geometric ℝ) (hp1 : d.f_p < 1) (k : Int) :
 theorem geometric_pmf_eq_zero (d : Geometric ℝ) : Geometric.pmf d 0 = 0 := by
   unfold Geometric.pmf; model_norm
 
-/-- Geometric: `0 ≤ pmf k ≤ 1` for `0 ≤ k < 2^31` (all accepted `p ∈ (0,1]`) -/
+/-- Geometric: `0 ≤ pmf k ≤ 1` for EVERY `k ≥ 0` (all accepted `p ∈ (0,1]`) -/
 theorem geometric_pmf_mem_unit (d : Geometric ℝ) (hp0 : 0 < d.f_p) (hp1 : d.f_p ≤ 1)
-    (k : Int) (hk0 : 0 ≤ k) (hk : k < 2 ^ 31) :
+    (k : Int) (hk0 : 0 ≤ k) :
     0 ≤ Geometric.pmf d k ∧ Geometric.pmf d k ≤ 1 := by
   rcases (by omega : k = 0 ∨ 1 ≤ k) with rfl | hk1
   · rw [geometric_pmf_eq_zero]; norm_num
-  · rw [geometric_pmf_formula d k hk1 hk]
+  · rw [geometric_pmf_formula d k hk1]
     have hq0 : 0 ≤ 1 - d.f_p := by linarith
     have hq1 : 1 - d.f_p ≤ 1 := by linarith
     obtain ⟨n, hn⟩ : ∃ n : ℕ, k - 1 = n := ⟨(k - 1).toNat, by omega⟩
@@ -205,26 +215,24 @@ theorem geometric_pmf_mem_unit (d : Geometric ℝ) (hp0 : 0 < d.f_p) (hp1 : d.f_
     · calc (1 - d.f_p) ^ n * d.f_p ≤ 1 * 1 := mul_le_mul h1 hp1 hp0.le (by norm_num)
         _ = 1 := by ring
 
-/-- Geometric: `pmf k = cdf k - cdf (k-1)` for `1 ≤ k < 2^31`, `p < 1`.  PARTIAL: (i) `k ≥ 2^31` is false in general (`geometric_pmf_counterexample`: the exponent is computed as `k as i32 - 1`); (ii) `p = 1` is excluded because the cdf goes through `ln_1p(-1) = -inf`, which the ℝ carrier cannot represent. -/
+/-- Geometric: `pmf k = cdf k - cdf (k-1)` for EVERY `k ≥ 1`, `p < 1`.  PARTIAL only because `p = 1` is excluded: the cdf goes through `ln_1p(-1) = -inf`, which the ℝ carrier cannot represent.  (The former bound `k < 2^31` is no longer needed: the exponent is `(k-1) as f64`, not `k as i32 - 1`.) -/
 theorem geometric_pmf_eq_cdf_sub_partial (d : Geometric ℝ) (hp1 : d.f_p < 1)
-    (k : Int) (hk1 : 1 ≤ k) (hk : k < 2 ^ 31) :
+    (k : Int) (hk1 : 1 ≤ k) :
     Geometric.pmf d k = Geometric.cdf d k - Geometric.cdf d (k - 1) := by
-  rw [geometric_pmf_formula d k hk1 hk, geometric_cdf_formula d hp1, geometric_cdf_formula d hp1]
+  rw [geometric_pmf_formula d k hk1, geometric_cdf_formula d hp1, geometric_cdf_formula d hp1]
   have hq : (1 - d.f_p) ≠ 0 := by linarith
   rw [zpow_sub_one₀ hq]
   field_simp
   ring
 
-/-- Geometric: partial sums telescope, `∑_{k=1}^{n} pmf k = cdf n`, for `n < 2^31`, `p < 1` (PARTIAL for the same two reasons); with `geometric_cdf_tendsto_one` this is "sums to 1" for the un-wrapped pmf. -/
-theorem geometric_sum_pmf_partial (d : Geometric ℝ) (hp1 : d.f_p < 1)
-    (n : ℕ) (hn : (n : Int) < 2 ^ 31) :
+/-- Geometric: partial sums telescope, `∑_{k=1}^{n} pmf k = cdf n`, for EVERY `n`, `p < 1` (PARTIAL only for `p = 1`, as above); with `geometric_cdf_tendsto_one` this is "sums to 1". -/
+theorem geometric_sum_pmf_partial (d : Geometric ℝ) (hp1 : d.f_p < 1) (n : ℕ) :
     ∑ i ∈ Finset.range n, Geometric.pmf d ((i : Int) + 1) = Geometric.cdf d n := by
   induction n with
   | zero => simp [geometric_cdf_formula d hp1]
   | succ m ih =>
-    have hm : (m : Int) < 2 ^ 31 := by push_cast at hn; omega
-    rw [Finset.sum_range_succ, ih hm,
-      geometric_pmf_eq_cdf_sub_partial d hp1 ((m : Int) + 1) (by omega) (by push_cast at hn; omega)]
+    rw [Finset.sum_range_succ, ih,
+      geometric_pmf_eq_cdf_sub_partial d hp1 ((m : Int) + 1) (by omega)]
     push_cast
     ring_nf
 
@@ -237,29 +245,40 @@ theorem geometric_cdf_tendsto_one (d : Geometric ℝ) (hp0 : 0 < d.f_p) (hp1 : d
   have := tendsto_pow_atTop_nhds_zero_of_lt_one (r := 1 - d.f_p) (by linarith) (by linarith)
   simpa using this.const_sub 1
 
-/-- whenever `k as i32 = 1` but `k ≥ 2`, the model pmf is `p`, not `(1-p)^(k-1) p` -/
-theorem geometric_pmf_wrap_ne (d : Geometric ℝ) (hp0 : 0 < d.f_p) (hp1 : d.f_p < 1)
-    (k : Int) (hk : 2 ≤ k) (hw : wrapI32 k = 1) :
-    Geometric.pmf d k ≠ Geometric.cdf d k - Geometric.cdf d (k - 1) := by
-  have hp : Geometric.pmf d k = d.f_p := by
-    unfold Geometric.pmf; rw [hw]; model_norm; rw [if_neg (by omega)]; simp
-  rw [hp, geometric_cdf_formula d hp1, geometric_cdf_formula d hp1]
-  have hq0 : 0 < 1 - d.f_p := by linarith
+/-- Geometric: the pmf sums to 1 over the support `{1, 2, …}` (0 < p < 1) -/
+theorem geometric_hasSum_pmf (d : Geometric ℝ) (hp0 : 0 < d.f_p) (hp1 : d.f_p < 1) :
+    HasSum (fun i : ℕ => Geometric.pmf d ((i : Int) + 1)) 1 := by
+  have hnn : ∀ i : ℕ, 0 ≤ Geometric.pmf d ((i : Int) + 1) := fun i =>
+    (geometric_pmf_mem_unit d hp0 hp1.le _ (by omega)).1
+  rw [hasSum_iff_tendsto_nat_of_nonneg hnn]
+  have := geometric_cdf_tendsto_one d hp0 hp1
+  refine this.congr fun n => ?_
+  rw [geometric_sum_pmf_partial d hp1 n]
+
+/-- Geometric, large `k` (beyond the old `i32` wrap): every `k` with `2^31 ≤ k ≤ u64::MAX` satisfies
+    `pmf k = (1-p)^(k-1) p = cdf k - cdf (k-1)`, and `pmf k < p` — before the fix the model gave e.g.
+    `pmf (2^32+1) = p` -/
+theorem geometric_pmf_eq_cdf_sub_large_k (d : Geometric ℝ) (hp0 : 0 < d.f_p) (hp1 : d.f_p < 1)
+    (k : Int) (hk : 2 ^ 31 ≤ k) (_hk2 : k ≤ u64Max) :
+    Geometric.pmf d k = (1 - d.f_p) ^ (k - 1) * d.f_p ∧
+      Geometric.pmf d k = Geometric.cdf d k - Geometric.cdf d (k - 1) ∧
+      Geometric.pmf d k < d.f_p := by
+  have hk1 : 1 ≤ k := by omega
+  refine ⟨geometric_pmf_formula d k hk1, geometric_pmf_eq_cdf_sub_partial d hp1 k hk1, ?_⟩
+  rw [geometric_pmf_formula d k hk1]
   obtain ⟨n, hn⟩ : ∃ n : ℕ, k - 1 = n := ⟨(k - 1).toNat, by omega⟩
   have hn0 : n ≠ 0 := by rintro rfl; simp at hn; omega
-  have hk' : k = ((n + 1 : ℕ) : Int) := by push_cast; omega
-  rw [hn, zpow_natCast, hk', zpow_natCast, pow_succ]
-  have hlt : (1 - d.f_p) ^ n < 1 := pow_lt_one₀ hq0.le (by linarith) hn0
-  intro hcontra
-  have : d.f_p * (1 - (1 - d.f_p) ^ n) = 0 := by linarith
-  rcases mul_eq_zero.mp this with h | h <;> linarith
+  rw [hn, zpow_natCast]
+  have hlt : (1 - d.f_p) ^ n < 1 := pow_lt_one₀ (by linarith) (by linarith) hn0
+  calc (1 - d.f_p) ^ n * d.f_p < 1 * d.f_p := mul_lt_mul_of_pos_right hlt hp0
+    _ = d.f_p := one_mul _
 
-/-- Geometric, FALSE for large k: `p = 1/2`, `k = 2^32 + 1 ≤ u64::MAX`: `pmf k = 1/2 ≠ cdf k - cdf (k-1) = (1/2)^k` -/
-theorem geometric_pmf_counterexample :
-    ∃ (d : Geometric ℝ) (k : Int), 0 < d.f_p ∧ d.f_p < 1 ∧ 1 ≤ k ∧ k ≤ u64Max ∧
-      Geometric.pmf d k ≠ Geometric.cdf d k - Geometric.cdf d (k - 1) :=
+/-- the former counterexample witness `p = 1/2`, `k = 2^32 + 1 ≤ u64::MAX` is now a positive instance -/
+example : ∃ (d : Geometric ℝ) (k : Int), 0 < d.f_p ∧ d.f_p < 1 ∧ 2 ^ 31 ≤ k ∧ k ≤ u64Max ∧
+    Geometric.pmf d k = Geometric.cdf d k - Geometric.cdf d (k - 1) :=
   ⟨⟨1 / 2⟩, 4294967297, by norm_num, by norm_num, by norm_num, by norm_num [u64Max],
-    geometric_pmf_wrap_ne _ (by norm_num) (by norm_num) _ (by norm_num) (by unfold wrapI32; norm_num)⟩
+    (geometric_pmf_eq_cdf_sub_large_k _ (by norm_num) (by norm_num) _ (by norm_num)
+      (by norm_num [u64Max])).2.1⟩
 
 example : ∃ (d : Geometric ℝ), 0 < d.f_p ∧ d.f_p < 1 := ⟨⟨1 / 2⟩, by norm_num, by norm_num⟩
 
